@@ -247,7 +247,7 @@ pub fn generate(kind: &str, tier: &str, seed: u64, shard: u64, nshards: u64, pat
     let mut calls = 0usize;
     match kind {
         "flow" => {
-            let n = (if tier == "thorough" { 8000 } else { 1200 }) / nshards as usize + 1;
+            let n = (if tier == "thorough" { 40000 } else { 1200 }) / nshards as usize + 1;
             for _ in 0..n {
                 calls += exchange(&mut t, &mut rng, false);
                 runs += 1;
